@@ -405,6 +405,10 @@ class QueryAssignedColourResponse(command.EnumResponse):
     def value(self):
         if self.raw_value is None:
             return None
+        if self.raw_value.error:
+            # A framing error carries no colour code: let the base class
+            # report it
+            return super().value
         _value = self.raw_value.as_integer
         if 6 < _value < 255:
             return "(error)"
